@@ -8,7 +8,7 @@
 (*  PVS : Hardware/Hdd elements with a SystemName.                              *)
 (* The abstract configuration is the device set; renderings (casing, quoting,   *)
 (* comments, order, namespaces, unrelated entries) are chosen by the harness.   *)
-EXTENDS Integers, Sequences, FiniteSets, TLC
+EXTENDS Integers, Sequences, FiniteSets, TLC, Json, IOUtils
 
 CONSTANTS MaxDev
 VARIABLES cfg, expect
@@ -63,6 +63,20 @@ InitOvf  == cfg \in {[kind |-> "ovf", body |-> b] : b \in OvfCfgs} /\ expect = E
 InitVbox == cfg \in {[kind |-> "vbox", body |-> b] : b \in VbCfgs} /\ expect = Expected(cfg)
 InitPvs  == cfg \in {[kind |-> "pvs", body |-> b] : b \in PvsCfgs} /\ expect = Expected(cfg)
 NoNext == FALSE /\ UNCHANGED vars
+
+\* ---- trace validation: larger random configurations, reported lists recorded from the real parsers ----
+Runs == ndJsonDeserialize(IOEnv.TRACE_FILE)
+SeqSet(q) == {q[i] : i \in 1..Len(q)}
+\* the VMX expectation is a set of slots (the reader returns the file names sorted); the others are sequences of indices
+RunOK(r) == CASE r.kind = "vmx"  -> SeqSet(r.reported) = VmxDisks(SeqSet(r.body)) /\ Len(r.reported) = Cardinality(VmxDisks(SeqSet(r.body)))
+              [] r.kind = "ovf"  -> r.reported = OvfDisks(r.body, Len(r.body.items))
+              [] r.kind = "vbox" -> r.reported = VbDisks(r.body, Len(r.body))
+              [] r.kind = "pvs"  -> r.reported = PvsDisks(r.body, Len(r.body))
+TInit == cfg = 1 /\ expect = 0
+TStep == /\ cfg \in 1..Len(Runs)
+         /\ IF RunOK(Runs[cfg]) THEN PrintT(<<"ACCEPT", Runs[cfg].tid>>) ELSE PrintT(<<"REJECT", Runs[cfg].tid, 1, Runs[cfg].kind>>)
+         /\ cfg' = cfg + 1 /\ UNCHANGED expect
+TraceSpec == TInit /\ [][TStep]_vars
 
 \* sanity of the specification itself: CD-ROMs / floppies / controllers are never reported
 NoNonDisk == /\ cfg.kind = "vmx" => \A d \in cfg.body : d.type \in OtherTypes => d.slot \notin expect
